@@ -89,10 +89,12 @@ class ValueProfile:
             "peer_rate": rng.choice([0, 0.1, 0.25]) if dyn_units else 0,
             "intr_reg_rate": rng.choice([0, 0.15, 0.4]) if (self.use_reg and self.intr_reg) else 0,
             "sweep_rate": rng.choice([0, 0.3, 0.6]) if (self.use_reg and self.intr_reg) else 0,
+            "ro_sweep_step": (rng.randint(3, n_steps) if rng.random() < (0.05 if tier == "quick" else 0.3) else None) if self.use_interrupt else None,
             "restart_at": restart_at,
             "flt_kinds": self.flt_kinds,
             "eager_full": rng.random() < 0.6,
             "limited": limited,
+            "val_sweep": bool(limited) and self.use_interrupt and rng.random() < 0.25,
             "limited_cats": [[l["category"], l["quantity_type"]] for l in limited],
         }
 
